@@ -114,7 +114,8 @@ def async_job(job):
     stages, edge, kind = job["stages"], job["edge"], job["kind"]
     text = f"{kind}(stages={stages}" + (f", async_edge={edge!r})" if kind == "AsyncFFSynchronizer" else ")")
     base = {"id": job["id"], "program": text, "nontrivial": True}
-    K = stages + 4
+    between = job.get("between", False)      # a second input level per clock period, applied between the edges
+    K = stages + (2 if between else 4)
 
     def build():
         i = Signal(1, name="i")
@@ -135,7 +136,7 @@ def async_job(job):
     active = 1 if (edge == "pos" or kind != "AsyncFFSynchronizer") else 0
     from vlib.pysym import fresh, sym_ite, sym_and, sym_not, bool_term, eval_in_model
     # symbolic input level before each of K clock edges; reference: flops all 1 while asserted, shift in 0 at each edge
-    ivs = [fresh(f"i{t}", 1, False) for t in range(K)]
+    ivs = [fresh(f"i{t}", 1, False) for t in range(K * (2 if between else 1))]
 
     def scen():
         sim.reset()
@@ -143,17 +144,26 @@ def async_job(job):
         ref = [1] * stages
         conds = []
         for t in range(K):
-            sim.set(i, ivs[t])
+            iv = ivs[2 * t] if between else ivs[t]
+            sim.set(i, iv)
             sim.engine.step_design()
-            asserted = (ivs[t] == active)
+            asserted = (iv == active)
             ref = [sym_ite(asserted, 1, x) for x in ref]
             conds.append(sim.value(o) != ref[-1])
             sim.tick(cd.clk)
             sim.edge((cd.clk, 0))
             ref = [sym_ite(asserted, 1, x) for x in [0] + ref[:-1]]
             conds.append(sim.value(o) != ref[-1])
+            if between:
+                # a level that no clock edge sees: asserting it still sets every stage, releasing it changes nothing by itself
+                iv2 = ivs[2 * t + 1]
+                sim.set(i, iv2)
+                sim.engine.step_design()
+                ref = [sym_ite(iv2 == active, 1, x) for x in ref]
+                conds.append(sim.value(o) != ref[-1])
         return conds
-    r = dict(base, kind="assert-async/release-after-stages", symbolic=f"input level before each of {K} clock edges",
+    r = dict(base, kind="assert-async/release-after-stages" + (" (levels between edges)" if between else ""),
+             symbolic=f"input level before each of {K} clock edges" + (" and between them" if between else ""),
              assertion="output == reference chain: all stages set as soon as the input is asserted (no clock needed), a 0 shifted in at every clock edge while released")
     try:
         paths = explore(scen, max_paths=20000)
@@ -181,6 +191,7 @@ def async_job(job):
 def async_cex(res, job, seq):
     from amaranth.sim import Simulator
     stages, edge, kind = job["stages"], job["edge"], job["kind"]
+    between = job.get("between", False)
     active = 1 if (edge == "pos" or kind != "AsyncFFSynchronizer") else 0
     with symsim.real_states():
         i = Signal(1)
@@ -198,12 +209,14 @@ def async_cex(res, job, seq):
 
         async def tb(ctx):
             ref = [1] * stages
-            for v in seq:
+            for k_, v in enumerate(seq):
                 ctx.set(i, v)
                 if v == active:
                     ref = [1] * stages
                 got.append(ctx.get(o))
                 want.append(ref[-1])
+                if between and k_ % 2 == 1:
+                    continue                      # the level applied between two edges
                 ctx.set(cd.clk, 1)
                 ctx.set(cd.clk, 0)
                 ref = ([1] * stages) if v == active else ([0] + ref[:-1])
@@ -366,7 +379,9 @@ def main(tier, seed):
     for st in (2, 3) if tier == "quick" else (2, 3, 4):
         for edge in ("pos", "neg"):
             jobs.append({"id": f"async-s{st}-{edge}", "what": "async", "kind": "AsyncFFSynchronizer", "stages": st, "edge": edge})
+            jobs.append({"id": f"async-s{st}-{edge}-between", "what": "async", "kind": "AsyncFFSynchronizer", "stages": st, "edge": edge, "between": True})
         jobs.append({"id": f"rstsync-s{st}", "what": "async", "kind": "ResetSynchronizer", "stages": st, "edge": "pos"})
+        jobs.append({"id": f"rstsync-s{st}-between", "what": "async", "kind": "ResetSynchronizer", "stages": st, "edge": "pos", "between": True})
     for st in (2, 3):
         jobs.append({"id": f"pulse-s{st}", "what": "pulse", "stages": st, "K": 10 if tier == "quick" else 16})
     results, stats = run.run_jobs(job_fn, jobs)
